@@ -72,6 +72,7 @@ fn simplifying<T, OF, LM>(
     st: &mut Stats,
     label: &str,
     helpers: bool,
+    constructed: &dyn Fn(&mut Tape) -> Option<(String, CT, DeepEx<'static, T, OF, LM>)>,
     gen_pt: &dyn Fn(&mut Tape) -> T,
     same: &dyn Fn(&T, &T, f64) -> bool,
     cond: &dyn Fn(&CT, &[T]) -> Option<f64>,
@@ -89,6 +90,17 @@ where
     let mut history: Vec<String> = vec![];
     let describe = |h: &Vec<String>| json!({"data_type": label, "history": h});
     for k in 0..3 {
+        if t.chance(12) {
+            // an operand made by a constructor instead of the parser
+            if let Some((what, tree, d)) = constructed(&mut t) {
+                history.push(format!("#{k} = {what}"));
+                if !d.var_names().is_empty() {
+                    return Err(fail("C10/simplifying/var-names", format!("{what} has variables {:?}", d.var_names()), describe(&history)));
+                }
+                entries.push(NEntry { tree, d });
+                continue;
+            }
+        }
         let (tree, text) = if k == 2 || t.chance(25) {
             let s = *t.pick(&SPECIAL_OPERANDS);
             (parse_special(s), s.to_string())
@@ -178,15 +190,38 @@ where
                 guard(|| Ok(NEntry { tree: CT::Un("-", Box::new(ea.tree.clone())), d: ex_msg(-ea.d.clone())? }))
             }
             6 => {
-                let name = ["sin", "cos", "exp", "tanh", "atan"][t.choose(5)];
+                const HELPERS: [&str; 23] = [
+                    "abs", "sin", "cos", "tan", "sinh", "cosh", "tanh", "asin", "acos", "atan", "signum", "log", "log2", "log10", "ln", "round",
+                    "floor", "ceil", "exp", "sqrt", "cbrt", "fract", "trunc",
+                ];
+                let name = HELPERS[t.choose(HELPERS.len())];
                 history.push(format!("#{id} = #{a}.{name}()"));
                 guard(|| {
+                    let x = ea.d.clone();
                     let d = match name {
-                        "sin" => ea.d.clone().sin(),
-                        "cos" => ea.d.clone().cos(),
-                        "exp" => ea.d.clone().exp(),
-                        "tanh" => ea.d.clone().tanh(),
-                        _ => ea.d.clone().atan(),
+                        "abs" => x.abs(),
+                        "sin" => x.sin(),
+                        "cos" => x.cos(),
+                        "tan" => x.tan(),
+                        "sinh" => x.sinh(),
+                        "cosh" => x.cosh(),
+                        "tanh" => x.tanh(),
+                        "asin" => x.asin(),
+                        "acos" => x.acos(),
+                        "atan" => x.atan(),
+                        "signum" => x.signum(),
+                        "log" => x.log(),
+                        "log2" => x.log2(),
+                        "log10" => x.log10(),
+                        "ln" => x.ln(),
+                        "round" => x.round(),
+                        "floor" => x.floor(),
+                        "ceil" => x.ceil(),
+                        "exp" => x.exp(),
+                        "sqrt" => x.sqrt(),
+                        "cbrt" => x.cbrt(),
+                        "fract" => x.fract(),
+                        _ => x.trunc(),
                     };
                     Ok(NEntry { tree: CT::Un(name, Box::new(ea.tree.clone())), d: ex_msg(d)? })
                 })
@@ -280,6 +315,27 @@ fn simplifying_f64(tape: &[u32], st: &mut Stats) -> CaseResult {
         st,
         "f64",
         true,
+        &|t: &mut Tape| {
+            type DF = DeepEx<'static, f64>;
+            let num = |x: f64| CT::Num(format!("{x:?}"));
+            Some(match t.choose(7) {
+                0 => ("DeepEx::pi()".to_string(), num(std::f64::consts::PI), DF::pi()),
+                1 => ("DeepEx::e()".to_string(), num(std::f64::consts::E), DF::e()),
+                2 => ("DeepEx::tau()".to_string(), num(std::f64::consts::TAU), DF::tau()),
+                3 => ("DeepEx::one()".to_string(), num(1.0), DF::one()),
+                4 => ("DeepEx::zero()".to_string(), num(0.0), DF::zero()),
+                5 => {
+                    let x = [2.5, -0.75, 0.0, 1.0, 1e-3, 12.0][t.choose(6)];
+                    (format!("DeepEx::from_num({x:?})"), num(x), DF::from_num(x))
+                }
+                _ => {
+                    let x = [0.5, -3.0, 0.0, 1.0][t.choose(4)];
+                    // a flat expression from a number, converted
+                    let f = exmex::FlatEx::<f64>::from_num(x);
+                    (format!("FlatEx::from_num({x:?}).to_deepex()"), num(x), f.to_deepex().ok()?)
+                }
+            })
+        },
         &|t: &mut Tape| [0.5, 2.0, -1.5, 3.0, 0.25, -0.75, 1.25, 4.0][t.choose(8)],
         &|a: &f64, b: &f64, sens: f64| close_cond(*a, *b, 1e-9, sens),
         &|tree: &CT, full: &[f64]| {
@@ -298,6 +354,18 @@ fn simplifying_exact(tape: &[u32], st: &mut Stats) -> CaseResult {
         st,
         "exact rationals",
         false,
+        &|t: &mut Tape| {
+            type DQ = DeepEx<'static, Q, QOps, QMatcher>;
+            Some(match t.choose(3) {
+                0 => ("DeepEx::one()".to_string(), CT::Num("1".into()), DQ::one()),
+                1 => ("DeepEx::zero()".to_string(), CT::Num("0".into()), DQ::zero()),
+                _ => {
+                    let (n, d) = *t.pick(&Q_POINTS);
+                    let frac = CT::Bin("/", Box::new(CT::Num(format!("{}", n.abs()))), Box::new(CT::Num(format!("{d}"))));
+                    (format!("DeepEx::from_num({n}/{d})"), if n < 0 { CT::Un("-", Box::new(frac)) } else { frac }, DQ::from_num(Q::ratio(n, d)))
+                }
+            })
+        },
         &|t: &mut Tape| {
             let (n, d) = *t.pick(&Q_POINTS);
             Q::ratio(n, d)
